@@ -1,3 +1,4 @@
+import sys
 from typing import Optional
 
 from django.core.cache import BaseCache, caches
@@ -36,10 +37,15 @@ def get_component_media_cache() -> BaseCache:
         else:
             component_media_cache = LocMemCache(
                 "django-components-media",
+                # NOTE: Django reads `MAX_ENTRIES` / `CULL_FREQUENCY` only from `OPTIONS`, and `MAX_ENTRIES: None`
+                #       falls back to the default of 300 entries - beyond which the least recently used third
+                #       of the scripts is dropped, possibly in the middle of a render that has just cached them.
                 {
                     "TIMEOUT": None,  # No timeout
-                    "MAX_ENTRIES": None,  # No max size
-                    "CULL_FREQUENCY": 3,
+                    "OPTIONS": {
+                        "MAX_ENTRIES": sys.maxsize,  # No max size
+                        "CULL_FREQUENCY": 3,
+                    },
                 },
             )
 
